@@ -41,13 +41,18 @@ AL = A + [M1, M2, M3]
 
 
 def class_tables():
+    """canonical_order and types of vRecur, computed from the real class body (source.class_constants: literals, or tables derived
+    from another table of the body by a comprehension / a constructor)"""
     mod = source.module("prop")
-    members = mod.class_members("vRecur")
-    order = ast.literal_eval(members["canonical_order"]) if "canonical_order" in members else None
-    types = None
-    node = members.get("types")
-    if isinstance(node, ast.Call) and node.args and isinstance(node.args[0], ast.Dict):
-        types = {ast.literal_eval(k): (v.id if isinstance(v, ast.Name) else None) for k, v in zip(node.args[0].keys, node.args[0].values)}
+    consts = source.class_constants(mod, "vRecur")
+    order = consts.get("canonical_order")
+    if not (isinstance(order, (tuple, list)) and all(isinstance(x, str) for x in order)):
+        order = None
+    types = consts.get("types")
+    if isinstance(types, dict) and all(isinstance(k, str) for k in types):
+        types = {k: (v.id if isinstance(v, source.ClsRef) else None) for k, v in types.items()}
+    else:
+        types = None
     return order, types
 
 
@@ -96,6 +101,29 @@ def run(rep: common.Report):
         else:
             ob.detail = f"{len(RFC_TYPES)} RFC part names checked"
     rep.add(ob)
+    # a failing rule for a refuted table obligation: every RFC part through the real class against the RFC's order / value types
+    if any(o.status == REFUTED for o in rep.obligations[-2:]):
+        from props import C19_bnd
+        samples = {"UNTIL": "20300101T000000Z", "COUNT": 3, "INTERVAL": 2, "BYSECOND": 5, "BYMINUTE": 7, "BYHOUR": 9, "BYDAY": "MO", "BYMONTHDAY": 11,
+                   "BYYEARDAY": 100, "BYWEEKNO": 20, "BYMONTH": 5, "BYSETPOS": 1, "WKST": "SU"}
+        for o in rep.obligations[-2:]:
+            if o.status != REFUTED:
+                continue
+            for k in RFC_ORDER[1:]:
+                rule = {"FREQ": "YEARLY", k: samples[k] if k != "UNTIL" else __import__("datetime").datetime(2030, 1, 1, tzinfo=__import__("datetime").timezone.utc)}
+                if "order" in o.oid and "types" not in o.oid:
+                    rule = {kk: rule.get(kk, samples.get(kk)) for kk in reversed(RFC_ORDER) if kk not in ("UNTIL", "FREQ")}
+                    rule["FREQ"] = "YEARLY"
+                    from icalendar import prop as _p
+                    text = _p.vRecur(rule).to_ical().decode()
+                    keys = [x.split("=")[0] for x in text.split(";")]
+                    msgs = [] if keys == [x for x in RFC_ORDER if x in rule] else [f"{text!r}: the parts are not in the order of RFC 5545 3.3.10"]
+                else:
+                    msgs = [m for m in C19_bnd.check(rule) if "typed value" in m]
+                if msgs:
+                    o.witness = {"rule": repr(rule)}
+                    o.replay = {"confirmed": True, "native": msgs[0]}
+                    break
     ok, why = shape("prop:vRecur.to_ical", ["for key, vals in self.sorted_items():", "typ = self.types.get(key, vText)",
                                             "if not isinstance(vals, SEQUENCE_TYPES):", "vals = [vals]",
                                             "vals = b','.join((typ(val).to_ical() for val in vals))", "result.append(key + b'=' + vals)",
